@@ -868,7 +868,7 @@ theorem tree_processor_leaves_foreign_href (base cwd cur : List Path.Seg) (href 
 theorem textual_link_exclusions_witness :
     let base : List Path.Seg := [chars! "w", chars! "doc"]
     Path.resolve (base ++ [chars! "module"])
-        (linkRel base (base ++ [kNonExistent]) (chars! "/w/doc/non-existent dir/A/module/m.html"))
+        (linkRel base (base ++ [kNonExistent]) (chars! "/w/doc/" ++ kNonExistent ++ chars! "/A/module/m.html"))
       = [chars! "w", chars! "doc", chars! "module", chars! "A", chars! "module", chars! "m.html"] ∧
     (Gen.treeProcessorReadsRelative = true →
       pageHref base [chars! "w"] (base ++ [kNonExistent]) (chars! "/w/w/doc/A/m.html") = chars! "../A/m.html") ∧
